@@ -52,6 +52,9 @@ func judgeTermination(c *Case, o *outcome, v *harness.Verdict, what string) bool
 	for _, a := range o.aborts {
 		v.Failf(a.Sig, "%s", a.Msg)
 	}
+	if o.raced {
+		v.Failf("data-race", "the race detector reported a data race during this case (see WARNING: DATA RACE in the test log); %s returned at %v, stop kind %d issued=%v at %v", what, o.returnedAt, c.StopKind, o.stopIssued, o.stopAt)
+	}
 	if o.deadlock != "" {
 		v.Failf("hang-after-cancel", "%s did not return even after its context was cancelled: %s", what, o.deadlock)
 		return false
@@ -92,7 +95,7 @@ func checkFetch(t *testing.T, c Case) (v harness.Verdict) {
 	var mu sync.Mutex
 	var got []batchRec
 	var late int64
-	o := runCase(t, &c, log, func(f *fakeLog, returned *atomic.Bool) (func(ctx context.Context) error, func()) {
+	o := runCase(t, "fetch", &c, log, func(f *fakeLog, returned *atomic.Bool) (func(ctx context.Context) error, func()) {
 		opts := &scanner.FetcherOptions{BatchSize: c.Batch, ParallelFetch: c.Fetchers, StartIndex: c.Start, EndIndex: c.End, Continuous: c.Continuous}
 		fe := scanner.NewFetcher(f, opts)
 		run := func(ctx context.Context) error {
